@@ -193,6 +193,9 @@ func Mutate(data []byte, path, alt string, donor []byte, rnd *sim.Rng) ([]byte, 
 		return nil, fmt.Errorf("no such path %s", path)
 	}
 	var donorVal interface{}
+	if alt == "set" { // donor is the raw byte string to put at path
+		donorVal = append([]byte(nil), donor...)
+	}
 	if alt == "donor" {
 		if donor == nil {
 			return nil, fmt.Errorf("no donor")
@@ -213,7 +216,7 @@ func Mutate(data []byte, path, alt string, donor []byte, rnd *sim.Rng) ([]byte, 
 			return nil, false
 		case "absent":
 			return nil, true
-		case "donor":
+		case "donor", "set":
 			return donorVal, false
 		}
 		switch x := old.(type) {
